@@ -1,0 +1,16 @@
+//go:build verif
+
+package metadatastore
+
+// Pure specification functions used by the contracts in zz_contracts_verif.go.
+
+func specOptMismatch(supplied *string, computed *string) bool {
+	return supplied != nil && computed != nil && *supplied != *computed
+}
+
+// specMismatch: some checksum supplied by the client disagrees with the one computed from the body.
+func specMismatch(in ChecksumInput, calc ChecksumValues) bool {
+	return specOptMismatch(in.ETag, calc.ETag) || specOptMismatch(in.ChecksumCRC32, calc.ChecksumCRC32) ||
+		specOptMismatch(in.ChecksumCRC32C, calc.ChecksumCRC32C) || specOptMismatch(in.ChecksumCRC64NVME, calc.ChecksumCRC64NVME) ||
+		specOptMismatch(in.ChecksumSHA1, calc.ChecksumSHA1) || specOptMismatch(in.ChecksumSHA256, calc.ChecksumSHA256)
+}
